@@ -967,10 +967,11 @@ def optRank (r : Option Int) : Out :=
   | some r => .many [.int r, .err false]
   | none => .many [.int 0, .err true]
 
-def zrank (s : MState) (now : Int) (key m : Bytes) := zread (fun z => optRank (DsZSet.zRank z m)) (.many [.int 0, .err false]) s now key
-/-- ZRevRank drops the error: `return v, nil` -/
+/-- a key that does not exist has no ranks and no scores: ZRank / ZRevRank / ZScore report an error there
+    (since the repair "ZSCORE / ZRANK / ZREVRANK of a missing key replied 0"), as for a non-member -/
+def zrank (s : MState) (now : Int) (key m : Bytes) := zread (fun z => optRank (DsZSet.zRank z m)) (.many [.int 0, .err true]) s now key
 def zrevrank (s : MState) (now : Int) (key m : Bytes) :=
-  zread (fun z => .many [.int ((DsZSet.zRevRank z m).getD 0), .err false]) (.many [.int 0, .err false]) s now key
+  zread (fun z => optRank (DsZSet.zRevRank z m)) (.many [.int 0, .err true]) s now key
 
 def rankWithScore (desc : Bool) (s : MState) (now : Int) (key m : Bytes) :=
   zread (fun z => match AList.get? z.dict m with
@@ -980,7 +981,7 @@ def rankWithScore (desc : Bool) (s : MState) (now : Int) (key m : Bytes) :=
 def zscore (s : MState) (now : Int) (key m : Bytes) :=
   zread (fun z => match DsZSet.zScore z m with
     | some sc => .many [.f64 sc, .err false]
-    | none => .many [.f64 0, .err true]) (.many [.f64 0, .err false]) s now key
+    | none => .many [.f64 0, .err true]) (.many [.f64 0, .err true]) s now key
 
 def zincrby (s : MState) (now : Int) (key m : Bytes) (delta : F64) : R :=
   let (s, _) := writeKey s now key (some (.zset DsZSet.empty))
